@@ -190,7 +190,13 @@ def check_pair(case) -> Result:
             for v in res.violations[n0:]:
                 v.sig = v.sig + '/deep-copy'
             res.classes += ('deep-copied',)
-        if case.get('h2') and not res.violations:
+        compat_touched = any(who == 'g' and attr in ('module', 'helix_angle', 'pressure_angle')
+                             for who, attr, unit in case.get('reexpress') or [])
+        if case.get('h2') and compat_touched:
+            # a module / angle of g re-expressed in place may now sit an ulp away from the new partner's in the SAME unit,
+            # where comparisons are exact: whether the pair is still compatible is too close to call - not re-mated
+            res.classes += ('re-mating-skipped',)
+        elif case.get('h2') and not res.violations:
             # the same gear re-mated with another partner: everything mate-dependent must follow the new mate
             h2s = case['h2']
             h2 = B.make_element(h2s, 'h2')
